@@ -616,7 +616,7 @@ theorem cpr_dispatch {I : Iface σ} {B : σ → List Binding} {G : σ → Prop} 
   | some b =>
     rw [hm] at gl
     refine Or.inl ⟨b, pickR_some gl.symm, ?_⟩
-    cases ho : (I.call (getMatches I ps.w [kp]).1 ps.queue b [kp] ps.prev).2.2 <;>
+    cases ho : (I.call (getMatches I ps.w [kp]).1 ps.queue b [kp] ps.prev {}).2.2 <;>
       simp [cprResponse, hm, ho]
 
 /-! ### non-vacuity -/
@@ -646,6 +646,7 @@ example : Chosen toyBs (PA (fun f => f.eval fun _ => true) [3]) toyBs[3] :=
     bound to it here, so it goes to nobody), and the log accounts for every key -/
 example : (processKeys toyI 10 { w := false, queue := [.key 2 1, .key 1 2, .key 3 3] }).2.1 =
     [.pop (.key 2 1), .before, .after, .pop (.key 1 2), .cpr none (.key 1 2) [],
-     .pop (.key 3 3), .before, .call 1 [.key 2 1, .key 3 3] [], .after] := by decide
+     .pop (.key 3 3), .before, .ev none false, .call 1 [.key 2 1, .key 3 3] [], .after] := by
+  decide
 
 end Ptk.C04
